@@ -16,6 +16,7 @@ package server
 //          swap) as a crash point; recovery must give the acknowledged state.
 
 import (
+	"encoding/binary"
 	"fmt"
 	"os"
 	"path/filepath"
@@ -520,6 +521,25 @@ func checkC09Fault(job *Job, res *Result) {
 					res.Violate("C09/"+sig, fmt.Sprintf("%s  [dataset %s, crash after file operation %d of %d: %s; directory then holds %v]", detail, d.Name, k, nops, desc, listDir(cd)),
 						map[string]any{"dataset": d.Name, "k": k})
 				}
+				// the same crash image in a data directory that was once migrated from
+				// the legacy log format: the legacy file "aof" is still there (a
+				// migration never removes it) and must not come back to life
+				ld := x.dir + "/crash-legacy"
+				if err := vos.Materialise(k, dir, ld); err != nil {
+					panic(err)
+				}
+				os.WriteFile(filepath.Join(ld, "aof"), legacyAOF("set legacyk old point 1 1"), 0600)
+				if inL, err := x.TryStart("KL", ld, 9105, nil); err != nil {
+					viol("crash-recovery-fails:legacy-file-present", fmt.Sprintf("server does not start: %v", err))
+				} else {
+					cl := x.Dial(inL.Addr)
+					gotL := fullDump(cl)
+					cl.Close()
+					inL.Stop()
+					if gotL != want {
+						viol("crash-loses-data:legacy-file-present", fmt.Sprintf("with a stale legacy log file 'aof' in the directory: recovered %s ; acknowledged state %s", vclip(gotL, 300), vclip(want, 300)))
+					}
+				}
 				in3, err := x.TryStart("K", cd, 9100, nil)
 				if err != nil {
 					viol("crash-recovery-fails:"+strings.Fields(desc)[0], fmt.Sprintf("server does not start: %v", err))
@@ -614,4 +634,19 @@ func canonWithout(canon string, skip map[string]bool) string {
 		canon = canon[j+1:]
 	}
 	return sb.String()
+}
+
+// legacyAOF encodes commands in the pre-1.0 log format read by migrateAOF:
+// uint32 length, the command line, the same length again, a zero byte.
+func legacyAOF(lines ...string) []byte {
+	var out []byte
+	for _, l := range lines {
+		n := make([]byte, 4)
+		binary.LittleEndian.PutUint32(n, uint32(len(l)))
+		out = append(out, n...)
+		out = append(out, l...)
+		out = append(out, n...)
+		out = append(out, 0)
+	}
+	return out
 }
